@@ -8,6 +8,7 @@ import (
 	"github.com/nspcc-dev/neofs-node/pkg/local_object_storage/blobstor/common"
 	"github.com/nspcc-dev/neofs-node/pkg/local_object_storage/util/logicerr"
 	"github.com/nspcc-dev/neofs-node/pkg/local_object_storage/writecache"
+	"github.com/nspcc-dev/neofs-node/pkg/util/verifhook"
 	apistatus "github.com/nspcc-dev/neofs-sdk-go/client/status"
 	"github.com/nspcc-dev/neofs-sdk-go/object"
 	oid "github.com/nspcc-dev/neofs-sdk-go/object/id"
@@ -98,6 +99,7 @@ func (s *Shard) fetchObjectData(addr oid.Address, skipMeta bool,
 				zap.Stringer("addr", addr),
 				zap.Bool("skip_meta", skipMeta))
 		}
+		verifhook.Point("shard.get.afterCacheMiss")
 	}
 
 	if skipMeta || mErr != nil {
